@@ -112,6 +112,11 @@ def scenarios(tier, rng):
     out.append(_cache_sc(rng, 200, 80, 0, 1400))                 # growing, multi-chunk
     out.append(_cache_sc(rng, 260, 1, 200, 1400))                # shrinking from multi-chunk
     out.append(_cache_sc(rng, 3, 2, 1, 10, stale=True))          # stale '~' file from an earlier crash
+    # the publishing os.replace itself fails (EACCES: a reader holds the file on some platforms; EIO)
+    for errn in ("EACCES", "EIO"):
+        out.append(dict(_cache_sc(rng, 4, 3, 1, 40), fault_at_replace=errn))
+    out.append(dict(_doc_sc(rng, "jobdoc", "small", "setitem"), fault_at_replace="EACCES"))
+    out.append(dict(_doc_sc(rng, "projdoc", "mid", "update"), fault_at_replace="EIO"))
     n_doc, n_flush, n_cache, n_fresh = (14, 6, 8, 0) if tier == "quick" else (260, 110, 130, 8)
     for _ in range(n_doc):
         out.append(_doc_sc(rng, rng.choice(["jobdoc", "jobdoc", "projdoc"]), rng.choice(SIZES)))
@@ -558,7 +563,61 @@ def run_case(case, ctx):
         ctx.cleanup(d)
 
 
+def _run_faulted(case, sc, d):
+    """Oracle-only: the write's publishing step (os.replace onto the target) FAILS with an injected errno, and the
+    process may in addition die at any later (or earlier) step: the target still parses to the old or the new
+    content at every such point.  (An error path that falls back to rewriting the target in place is caught here.)"""
+    import errno as _errno
+
+    oracle, tags = [], ["kind=%s" % sc["kind"], "fault-at-replace=%s" % sc["fault_at_replace"]]
+    b = build(sc, d, case.get("mutant"))
+    targets = b.targets
+    tpaths = [t["path"] for t in targets]
+    snap = fsx.TreeSnapshot(d)
+    rec = fsx.fork_run(b.fn, d)
+    snap.restore()
+    ks = [s_.i for s_ in rec.steps if s_.kind in ("replace", "rename") and s_.path2 in tpaths]
+    if rec.status != "done" or not ks:
+        return {"model": [], "impl": [], "oracle": oracle, "tags": tags + ["no-write"], "key": None}
+    faults = {ks[0]: getattr(_errno, sc["fault_at_replace"])}
+    full = fsx.fork_run(b.fn, d, faults=faults)
+    news = []
+    for t in targets:
+        news.append(t["want"])
+
+    def judge(where):
+        for t, new in zip(targets, news):
+            v, err = parse_target(d, t)
+            tg = tag_of(v, err, t["old"], new)
+            if tg not in ("old", "new"):
+                oracle.append("%s: %s is neither the old nor the new content (%s)" % (
+                    where, t["path"], err or ("absent" if v == ABSENT else "parses to something else")))
+    judge("replace fails with %s, the call ends with %s" % (sc["fault_at_replace"], full.status))
+    steps2 = full.steps
+    snap.restore()
+    part = case.get("part")
+    pts = fsx.crash_points(steps2)
+    if part and part[0] == "crash":
+        pts = [pt for i, pt in enumerate(pts) if i % part[2] == part[1]]
+    elif "points" in case:
+        pts = resolve_points(steps2, case["points"])
+    else:
+        pts = []
+    for k, pbytes in pts:
+        fsx.fork_run(b.fn, d, crash_at=k, torn=pbytes, faults=faults)
+        judge("replace fails with %s, then crash before step %d%s (%s)" % (
+            sc["fault_at_replace"], k, " after %d bytes" % pbytes if pbytes else "",
+            steps2[k].brief() if k < len(steps2) else "end"))
+        snap.restore()
+        if oracle:
+            break
+    key = json.dumps([sc, case.get("part")], sort_keys=True)
+    return {"model": [], "impl": [], "oracle": oracle[:3], "tags": tags, "key": key}
+
+
 def _run(case, sc, d):
+    if sc.get("fault_at_replace"):
+        return _run_faulted(case, sc, d)
     model, impl, oracle, tags = [], [], [], []
     b = build(sc, d, case.get("mutant"))
     targets = b.targets
